@@ -22,7 +22,8 @@ func init() {
 			ClockSchedHook()
 		}
 		if FixedClockNs != 0 {
-			return FixedClockNs, 1, true
+			// the monotonic reading follows the fixed wall clock (same formula as the executor's clock model)
+			return FixedClockNs, FixedClockNs - 946684800*1000000000 + 1, true
 		}
 		mu.Lock()
 		defer mu.Unlock()
